@@ -53,7 +53,35 @@ func genCompressedStream(r *sim.Rng, format string, max int) *checks.StreamRecip
 	return &checks.StreamRecipe{Kind: "lib", W: &checks.WCase{Format: "lzma", LZ: &cfg, Payload: pl, Ops: []checks.Op{{K: "w", N: n}, {K: "c"}}}}
 }
 
+// genLongTruncated: a truncated archive whose decoded part exceeds the
+// decompressor's window (256 KiB with -0), so that the decoder's error arrives
+// together with data in the copy loop. Only the run itself is judged (no plan
+// enumeration: one invocation decodes several hundred KiB).
+func genLongTruncated(r *sim.Rng) *GCase {
+	format := sim.Pick(r, []string{"lzma", "lzma", "xz"})
+	n := r.Range(300000, 700000)
+	pl := sim.Payload{Kind: sim.Pick(r, []string{"text", "alpha", "period"}), N: n, Seed: r.Uint64(), A: r.Range(3, 300)}
+	var st *checks.StreamRecipe
+	if format == "xz" {
+		st = &checks.StreamRecipe{Kind: "lib", W: &checks.WCase{Format: "xz", XZ: &checks.XZCfg{LC: 3, PB: 2, DictCap: 1 << 16, BufSize: 4096}, Payload: pl, Ops: []checks.Op{{K: "w", N: n}, {K: "c"}}}}
+	} else {
+		st = &checks.StreamRecipe{Kind: "lib", W: &checks.WCase{Format: "lzma", LZ: &checks.LZCfg{LC: 3, PB: 2, DictCap: 1 << 16, BufSize: 4096, SizeInHeader: r.Bool(), Size: int64(n)}, Payload: pl, Ops: []checks.Op{{K: "w", N: n}, {K: "c"}}}}
+		if !st.W.LZ.SizeInHeader {
+			st.W.LZ.Size = 0
+		}
+	}
+	total := len(st.Build().Stream)
+	name := "big archive." + format
+	c := &GCase{PartialSeed: r.Uint64()}
+	c.Files = []FileSpec{{Name: name, Mode: 0o644, Kind: "cut", Stream: st, Cut: r.Range(total*3/4, total-1)}}
+	c.Runs = []Inv{{Decompress: true, Preset: sim.Pick(r, []int{0, 0, 1}), Keep: r.Chance(1, 4), Files: []string{name}}}
+	return c
+}
+
 func genC10(r *sim.Rng, tier string, idx int) *GCase {
+	if r.Chance(1, 60) {
+		return genLongTruncated(r)
+	}
 	c := &GCase{Enumerate: true, PartialSeed: r.Uint64()}
 	v := Inv{Preset: sim.Pick(r, []int{0, 0, 0, 1, -1}), Quiet: r.Intn(2)}
 	if tier == "thorough" && r.Chance(1, 20) {
@@ -497,7 +525,7 @@ func init() {
 			Engine:    "gxzsim",
 			Level:     "fault_enumeration",
 			Technique: "deterministic simulation of the gxz process on a simulated file system: the unmodified main() runs in-process over verif/sim/simos; every file-system mutation of a run is enumerated as kill point (before / after / mid-write) and as ENOSPC/EIO fault point, reads fail at seeded offsets; the data-loss invariant is evaluated on the simulated directory after every kill and every run",
-			Rule: "case = (initial directory: input valid/truncated/damaged/not compressed, optional existing target, stale temp file, unrelated file; one invocation from {compress, decompress} x {xz, lzma} x subsets of {-k,-f,-c} x names with spaces / known / unknown suffix / .txz/.tlz); fault space per case = for each of the M mutating operations of the fault-free run: kill before, kill after, kill mid-write, fail ENOSPC (partial write), fail EIO, and simulated SIGINT with 5 main/handler interleavings; plus two read faults; " +
+			Rule: "case = (initial directory: input valid/truncated (also several hundred KiB, longer than the decompressor's window)/damaged/not compressed, optional existing target, stale temp file, unrelated file; one invocation from {compress, decompress} x {xz, lzma} x subsets of {-k,-f,-c} x names with spaces / known / unknown suffix / .txz/.tlz); fault space per case = for each of the M mutating operations of the fault-free run: kill before, kill after, kill mid-write, fail ENOSPC (partial write), fail EIO, and simulated SIGINT with 5 main/handler interleavings; plus two read faults; " +
 				"non-trivial = every faulted run whose fault actually fired; distinct = (scenario digest, plan) pairs",
 			Gen:    genC10,
 			Run:    runC10,
